@@ -247,7 +247,10 @@ where
     }
 
     fn call(&mut self, req: Req) -> Self::Future {
-        let mut service = self.inner.clone();
+        // `poll_ready` was driven on `self.inner`: that instance takes the first attempt, a
+        // fresh clone is left behind for the next request (Tower readiness contract)
+        let clone = self.inner.clone();
+        let mut service = std::mem::replace(&mut self.inner, clone);
         let config = Arc::clone(&self.config);
 
         // Extract max_attempts from request before moving it
@@ -366,6 +369,9 @@ where
 
                         tokio::time::sleep(delay).await;
                         attempt += 1;
+
+                        // Every further attempt needs a ready service again
+                        futures::future::poll_fn(|cx| service.poll_ready(cx)).await?;
                     }
                 }
             }
